@@ -393,7 +393,7 @@ def r10_transfer_wiring(ctx):
     c02.r8_transfer_wiring(sub)
     n = 0
     for o in sub.obs:
-        if "transfer" in o.construct or "carried over" in o.construct or "ballot" in o.construct:
+        if "transfer" in o.construct or "carried over" in o.construct or "carried-over" in o.construct or "ballot" in o.construct:
             o.rule = "C03.R10"
             ctx.obs.append(o)
             n += 1
